@@ -26,6 +26,7 @@ import (
 
 	"github.com/influxdata/influxdb/coordinator"
 	"github.com/influxdata/influxdb/models"
+	intar "github.com/influxdata/influxdb/pkg/tar"
 	"github.com/influxdata/influxdb/query"
 	"github.com/influxdata/influxdb/services/meta"
 	"github.com/influxdata/influxdb/tsdb"
@@ -73,6 +74,17 @@ type caseDesc struct {
 	// export window
 	ExLo int64 `json:"ex_lo,omitempty"`
 	ExHi int64 `json:"ex_hi,omitempty"`
+	// srcfault: the SOURCE fails while streaming, before member FaultMember is sent.
+	// FaultKind "lstat": the snapshot file is gone when the directory walk reaches it (through the
+	// real Store.BackupShard; the file is removed by the stream's consumer as soon as the data of the
+	// previous member has been written). "open": the file is gone between the walk's lstat and the
+	// open (CreateShardSnapshot + tar.Stream with Engine.Backup's filter, wrapped).
+	FaultMember int    `json:"fault_member,omitempty"`
+	FaultKind   string `json:"fault_kind,omitempty"`
+	ViaRPC      bool   `json:"via_rpc,omitempty"`
+	// incr: after the full backup+restore, for each round: these ops on the source, then a
+	// since-bounded backup restored OVER the destination
+	Rounds [][]op `json:"rounds,omitempty"`
 	// extra archive members injected before restore (malformed stream): 0 none, 1 fields.idx file,
 	// 2 directory entry "index", 3 member with a foreign shard prefix
 	Extra int `json:"extra,omitempty"`
@@ -140,8 +152,90 @@ func coqKVs(m map[string][]tv) string {
 
 // ---------------------------------------------------------------- stores
 
+// srcFault: pending fault injection for the source's next BackupShard
+type srcFault struct {
+	mu     sync.Mutex
+	active bool
+	kind   string
+	k      int
+	after  int64  // lstat: trigger once this many bytes were written
+	name   string // base name of the snapshot file to remove
+	shDir  string
+	err    error // what the source's BackupShard returned
+}
+
+// faultStore is the source's TSDBStore as seen by its coordinator service.
+type faultStore struct {
+	*tsdb.Store
+	f *srcFault
+}
+
+func (s faultStore) BackupShard(id uint64, since time.Time, w io.Writer) error {
+	s.f.mu.Lock()
+	active := s.f.active
+	s.f.active = false
+	s.f.mu.Unlock()
+	if !active {
+		return s.Store.BackupShard(id, since, w)
+	}
+	err := faultyBackup(s.Store, id, w, s.f)
+	s.f.err = err
+	return err
+}
+
+type triggerWriter struct {
+	w     io.Writer
+	n     int64
+	after int64
+	fire  func()
+	done  bool
+}
+
+func (t *triggerWriter) Write(p []byte) (int, error) {
+	n, err := t.w.Write(p)
+	t.n += int64(n)
+	if !t.done && t.n >= t.after {
+		t.done = true
+		t.fire()
+	}
+	return n, err
+}
+
+// faultyBackup streams a full backup of the shard while the source loses one snapshot file.
+func faultyBackup(st *tsdb.Store, id uint64, w io.Writer, f *srcFault) error {
+	if f.kind == "lstat" {
+		tw := &triggerWriter{w: w, after: f.after, fire: func() {
+			dirs, _ := filepath.Glob(filepath.Join(f.shDir, "*.tmp"))
+			for _, d := range dirs {
+				os.Remove(filepath.Join(d, f.name))
+			}
+		}}
+		return st.BackupShard(id, time.Time{}, tw)
+	}
+	// Engine.Backup = CreateSnapshot(true) + tar.Stream(w, path, basePath, SinceFilterTarFile(since))
+	path, err := st.CreateShardSnapshot(id, true)
+	if err != nil {
+		return err
+	}
+	defer os.RemoveAll(path)
+	rel, err := st.ShardRelativePath(id)
+	if err != nil {
+		return err
+	}
+	inner := intar.SinceFilterTarFile(time.Time{})
+	i := 0
+	return intar.Stream(w, path, rel, func(fi os.FileInfo, shardRelativePath, fullPath string, tw *tar.Writer) error {
+		if i == f.k {
+			os.Remove(fullPath)
+		}
+		i++
+		return inner(fi, shardRelativePath, fullPath, tw)
+	})
+}
+
 type env struct {
 	dir      string
+	fault    *srcFault
 	src, dst *tsdb.Store
 	svcSrc   *coordinator.Service
 	svcDst   *coordinator.Service
@@ -304,7 +398,9 @@ func newEnv() *env {
 	e := &env{dir: dir, nextID: 1}
 	e.src = newStore(filepath.Join(dir, "src"))
 	e.dst = newStore(filepath.Join(dir, "dst"))
+	e.fault = &srcFault{}
 	e.svcSrc, e.lnSrc = newService(e.src)
+	e.svcSrc.TSDBStore = faultStore{e.src, e.fault}
 	e.svcDst, e.lnDst = newService(e.dst)
 	e.proxy = newCutProxy(e.lnSrc.Addr().String())
 	return e
@@ -804,6 +900,9 @@ type result struct {
 	total       int64
 	busy        bool
 	errText     string
+	srcFail     int // -1: no source fault; else number of members sent completely before the source failed
+	srcFailOpen bool
+	srcErr      bool
 	nextStem    string
 	base        string
 	nExtra      int
@@ -844,6 +943,10 @@ func errClass(err error) string {
 var sinceBase = time.Date(2020, 1, 1, 0, 0, 0, 0, time.UTC)
 
 func runCase(o *hx.Out, ev *env, d caseDesc, origin string) {
+	if d.Mode == "incr" {
+		runIncr(o, ev, d, origin)
+		return
+	}
 	o.Begin(d.Mode, d)
 	id := ev.nextID
 	ev.nextID++
@@ -921,7 +1024,9 @@ func runCase(o *hx.Out, ev *env, d caseDesc, origin string) {
 	var archive bytes.Buffer
 	var berr error
 	rpcMode := d.Mode == "rpc"
-	if !rpcMode {
+	faultMode := d.Mode == "srcfault"
+	r.srcFail = -1
+	if !rpcMode && !faultMode {
 		func() {
 			defer func() {
 				if e := recover(); e != nil {
@@ -985,14 +1090,60 @@ func runCase(o *hx.Out, ev *env, d caseDesc, origin string) {
 		}
 	}
 
+	// ---- source fault
+	if faultMode {
+		n := len(r.members)
+		k := d.FaultMember
+		kind := d.FaultKind
+		if kind != "open" {
+			kind = "lstat"
+		}
+		lo := 0
+		if kind == "lstat" {
+			lo = 1 // nothing is written before the walk looks at the first file
+		}
+		if n > lo {
+			k = lo + k%(n-lo)
+			ev.fault.mu.Lock()
+			ev.fault.active, ev.fault.kind, ev.fault.k, ev.fault.shDir, ev.fault.err = true, kind, k, shDir, nil
+			ev.fault.name = filepath.Base(r.members[k].Name)
+			ev.fault.after = 0
+			if k > 0 {
+				ev.fault.after = r.members[k-1].End
+			}
+			ev.fault.mu.Unlock()
+			r.srcFail = k
+			r.srcFailOpen = kind == "open"
+		}
+	}
+
 	// ---- restore / import / copy
 	var rerr error
-	if rpcMode {
+	if faultMode && !d.ViaRPC {
+		var buf bytes.Buffer
+		ferr := faultStore{ev.src, ev.fault}.BackupShard(id, time.Time{}, &buf)
+		r.srcErr = ferr != nil
+		if err := ev.dst.CreateShard(db, "rp", id, true); err != nil {
+			panic(err)
+		}
+		func() {
+			defer func() {
+				if e := recover(); e != nil {
+					rerr = fmt.Errorf("panic: %v", e)
+				}
+			}()
+			rerr = ev.dst.RestoreShard(id, bytes.NewReader(buf.Bytes()))
+		}()
+		r.advertised = rerr == nil
+	} else if rpcMode || faultMode {
 		ev.proxy.setLimit(r.cutAt)
 		c := coordinator.NewClient(nil, 10*time.Second)
 		rerr = c.CopyShard(ev.lnDst.Addr().String(), ev.proxy.ln.Addr().String(), db, "rp", id, time.Time{})
 		// services/meta/handler.go serveCopyShard: the owner is added iff CopyShard returned nil
 		r.advertised = rerr == nil
+		if faultMode {
+			r.srcErr = ev.fault.err != nil
+		}
 	} else {
 		if err := ev.dst.CreateShard(db, "rp", id, true); err != nil {
 			panic(err)
@@ -1035,8 +1186,193 @@ func runCase(o *hx.Out, ev *env, d caseDesc, origin string) {
 	emit(o, d, &r, origin)
 }
 
+// one round of the incremental mode, as observed
+type roundObs struct {
+	files      []fileObs
+	cache      map[string][]tv
+	nextStem   string
+	hasSince   bool
+	since      int64
+	members    []memberObs
+	archiveOK  bool
+	src        map[string][]tv
+	backupErr  bool
+	restoreErr bool
+	dstOK      bool
+	dst        map[string][]tv
+	dstFiles   []fileObs
+}
+
+func applyOps(o *hx.Out, st *tsdb.Store, db string, id uint64, ops []op) {
+	for _, x := range ops {
+		var err error
+		func() {
+			defer func() {
+				if e := recover(); e != nil {
+					err = fmt.Errorf("panic: %v", e)
+				}
+			}()
+			err = applyOp(st, db, id, x)
+		}()
+		if err != nil {
+			o.Count("operr:" + x.Kind)
+		}
+	}
+}
+
+// fsClockAfter waits until a file written now gets a modification time later than t and returns it.
+func fsClockAfter(dir string, t int64) int64 {
+	p := filepath.Join(dir, "clock-probe")
+	for {
+		os.WriteFile(p, []byte{1}, 0644)
+		if st, err := os.Stat(p); err == nil && st.ModTime().UnixNano() > t {
+			return st.ModTime().UnixNano()
+		}
+		time.Sleep(time.Millisecond)
+	}
+}
+
+// runIncr: full backup restored into the destination, then rounds of (ops on the source,
+// backup of everything modified since the previous backup, restored over the destination).
+func runIncr(o *hx.Out, ev *env, d caseDesc, origin string) {
+	o.Begin(d.Mode, d)
+	id := ev.nextID
+	ev.nextID++
+	db := "db"
+	scratch := filepath.Join(ev.dir, "scratch")
+	defer func() {
+		ev.src.DeleteShard(id)
+		ev.dst.DeleteShard(id)
+	}()
+	if err := ev.src.CreateShard(db, "rp", id, true); err != nil {
+		panic(err)
+	}
+	if err := ev.dst.CreateShard(db, "rp", id, true); err != nil {
+		panic(err)
+	}
+	shDir := filepath.Join(ev.src.Path(), db, "rp", fmt.Sprint(id))
+	dstDir := filepath.Join(ev.dst.Path(), db, "rp", fmt.Sprint(id))
+	base := filepath.ToSlash(filepath.Join(db, "rp", fmt.Sprint(id)))
+	var rounds []roundObs
+	var since time.Time
+	all := append([][]op{d.Ops}, d.Rounds...)
+	removed := 0
+	for ri, ops := range all {
+		applyOps(o, ev.src, db, id, ops)
+		eng := engineOf(ev.src, id)
+		var ro roundObs
+		var err error
+		if ro.files, err = observeDir(shDir, scratch); err != nil {
+			panic(err)
+		}
+		ro.cache = observeCache(eng)
+		ro.nextStem = tsm1.DefaultFormatFileName(eng.FileStore.CurrentGeneration()+1, 1)
+		ro.src, _ = readShard(ev.src, id)
+		ro.hasSince = ri > 0
+		ro.since = since.UnixNano()
+		var archive bytes.Buffer
+		var berr error
+		if ri == 0 {
+			berr = ev.src.BackupShard(id, time.Time{}, &archive)
+		} else {
+			berr = ev.src.BackupShard(id, since, &archive)
+		}
+		ro.backupErr = berr != nil
+		o.Count("backup:" + errClass(berr))
+		ro.members, ro.archiveOK = parseArchive(archive.Bytes(), scratch)
+		var rerr error
+		func() {
+			defer func() {
+				if e := recover(); e != nil {
+					rerr = fmt.Errorf("panic: %v", e)
+				}
+			}()
+			rerr = ev.dst.RestoreShard(id, bytes.NewReader(archive.Bytes()))
+		}()
+		ro.restoreErr = rerr != nil
+		o.Count("restore:" + errClass(rerr))
+		ro.dst, ro.dstOK = readShard(ev.dst, id)
+		ro.dstFiles, _ = observeDir(dstDir, scratch)
+		rounds = append(rounds, ro)
+		// The next backup takes everything modified after [since]. File times come from the
+		// kernel's coarse clock, which lags time.Now() by up to a tick (more under load): [since]
+		// is therefore read from that same clock - a value strictly later than every file of the
+		// shard - and the source is not touched again before the clock has moved past it.
+		var latest int64
+		if names, err := filepath.Glob(filepath.Join(shDir, "*")); err == nil {
+			for _, p := range names {
+				if st, err := os.Stat(p); err == nil && st.ModTime().UnixNano() > latest {
+					latest = st.ModTime().UnixNano()
+				}
+			}
+		}
+		since = time.Unix(0, fsClockAfter(ev.dir, latest))
+		fsClockAfter(ev.dir, since.UnixNano())
+	}
+	last := rounds[len(rounds)-1]
+	// files the destination still holds although the source no longer has them (compacted away)
+	srcNames := map[string]bool{}
+	if after, err := observeDir(shDir, scratch); err == nil {
+		for _, f := range after {
+			srcNames[f.Name] = true
+		}
+	}
+	for _, f := range last.dstFiles {
+		if !srcNames[f.Name] {
+			removed++
+		}
+	}
+	var items []string
+	for _, ro := range rounds {
+		var dstNames []string
+		for _, f := range ro.dstFiles {
+			dstNames = append(dstNames, fmt.Sprintf("(%s, %s)", hx.CoqStr(f.Name), hx.CoqBool(f.HasTS)))
+		}
+		items = append(items, fmt.Sprintf("(mk_round %s %s %s %s %s %s %s %s %s %s %s %s %s)",
+			coqFiles(ro.files), coqKVs(ro.cache), hx.CoqStr(ro.nextStem), hx.CoqBool(ro.hasSince), hx.CoqZ(ro.since),
+			coqKVs(ro.src), hx.CoqBool(ro.backupErr), coqMembers(ro.members), hx.CoqBool(ro.archiveOK),
+			hx.CoqBool(ro.restoreErr), hx.CoqBool(ro.dstOK), coqKVs(ro.dst), hx.CoqList(dstNames)))
+	}
+	coq := fmt.Sprintf("mk_incr %s %s", hx.CoqStr(base), hx.CoqList(items))
+	o.Count("mode:incr")
+	o.Count(fmt.Sprintf("incr:rounds=%d", len(rounds)-1))
+	tombOnly := 0
+	for _, ro := range rounds[1:] {
+		for _, m := range ro.members {
+			if m.Kind == 1 {
+				tsm := strings.TrimSuffix(m.Name, ".tombstone") + ".tsm"
+				found := false
+				for _, m2 := range ro.members {
+					if m2.Name == tsm {
+						found = true
+					}
+				}
+				if !found {
+					tombOnly++
+				}
+			}
+		}
+	}
+	if tombOnly > 0 {
+		o.Count("incr:tombstone-only-members")
+	}
+	if removed > 0 {
+		o.Count("incr:dst-keeps-removed-files")
+	}
+	obs := map[string]interface{}{
+		"rounds": len(rounds) - 1, "dst_equals_src": sameReads(last.src, last.dst), "restore_err": last.restoreErr,
+		"backup_err": last.backupErr, "tombstone_only_members": tombOnly, "dst_files_removed_on_source": removed,
+		"src_points": countPts(last.src), "dst_points": countPts(last.dst), "last_members": memberNames(last.members),
+	}
+	sig, _ := json.Marshal(d)
+	o.Emit(hx.Case{Kind: d.Mode, Coq: coq, Desc: d, Obs: obs, Nontrivial: countPts(last.src) > 0, Sig: string(sig), Origin: origin})
+}
+
 func emit(o *hx.Out, d caseDesc, r *result, origin string) {
-	mode := map[string]int{"full": 0, "import": 1, "since": 2, "cut": 3, "rpc": 4, "export": 5, "busy": 6}[d.Mode]
+	mode := map[string]int{"full": 0, "import": 1, "since": 2, "cut": 3, "rpc": 4, "export": 5, "busy": 6, "srcfault": 7}[d.Mode]
+	if d.Mode == "srcfault" && d.ViaRPC {
+		mode = 8
+	}
 	// since threshold as seen by the model
 	var since int64 = math.MinInt64
 	if d.Mode == "since" {
@@ -1065,11 +1401,12 @@ func emit(o *hx.Out, d caseDesc, r *result, origin string) {
 	for _, p := range d.During {
 		during = append(during, fmt.Sprintf("(%s, (%s, %s))", hx.CoqStr(keyOf(p.S, p.F)), hx.CoqZ(p.T), coqValue(valueOf(p.F, p.V))))
 	}
-	coq := fmt.Sprintf("mk_case %d %s %s %s %s %s %s %s %s %s %s %s %s %s %s %s %s %s %s %s %s %s %s",
+	coq := fmt.Sprintf("mk_case %d %s %s %s %s %s %s %s %s %s %s %s %s %s %s %s %s %s %s %s %s %s %s %s %s",
 		mode,
 		coqFiles(r.srcFiles), coqKVs(r.srcCache), hx.CoqBool(r.busy),
 		hx.CoqStr(r.nextStem), hx.CoqStr(r.base),
 		hx.CoqZ(since), hx.CoqZ(d.ExLo), hx.CoqZ(d.ExHi), hx.CoqZ(r.cutAt), hx.CoqZ(r.total),
+		hx.CoqZ(int64(r.srcFail)), hx.CoqBool(r.srcFailOpen),
 		hx.CoqList(during), coqMembers(r.members[:r.nExtra]),
 		coqKVs(r.srcBefore), coqKVs(r.srcAfter),
 		hx.CoqBool(r.backupErr), coqMembers(r.members), hx.CoqBool(r.archiveOK),
@@ -1093,11 +1430,15 @@ func emit(o *hx.Out, d caseDesc, r *result, origin string) {
 	if r.cutAt >= 0 {
 		o.Count("cut:" + cutClass(r))
 	}
+	if d.Mode == "srcfault" {
+		o.Count(fmt.Sprintf("srcfault:%s:rpc=%v:injected=%v", d.FaultKind, d.ViaRPC, r.srcFail >= 0))
+	}
 	obs := map[string]interface{}{
 		"backup_err": r.backupErr, "restore_err": r.restoreErr, "dst_exists": r.dstExists, "dst_readable": r.dstReadable,
 		"advertised": r.advertised, "members": memberNames(r.members), "cut_at": r.cutAt, "archive_bytes": r.total,
 		"src_unchanged": sameReads(r.srcBefore, r.srcAfter), "dst_equals_src": sameReads(r.srcBefore, r.dst),
 		"src_points": countPts(r.srcBefore), "dst_points": countPts(r.dst), "error": r.errText,
+		"source_fault_before_member": r.srcFail, "source_err": r.srcErr,
 	}
 	sig, _ := json.Marshal(d)
 	o.Emit(hx.Case{Kind: d.Mode, Coq: coq, Desc: d, Obs: obs,
@@ -1199,9 +1540,54 @@ func genOps(r *hx.Rand) []op {
 	return ops
 }
 
+// ops on the source between two backups: writes, deletes (which hit the files the previous
+// backup already shipped), cache snapshots and, rarely, a full compaction
+func genRoundOps(r *hx.Rand) []op {
+	var ops []op
+	n := 1 + r.Intn(4)
+	tmax := int64(4 + r.Intn(30))
+	for i := 0; i < n; i++ {
+		switch k := r.Intn(20); {
+		case k < 8:
+			ops = append(ops, op{Kind: "write", Pts: genPts(r, 1+r.Intn(6), tmax)})
+		case k < 15:
+			lo := int64(r.Intn(int(tmax)))
+			hi := lo + int64(r.Intn(int(tmax)/2+1))
+			var ser []int
+			for s := range tagVals {
+				if r.Chance(50) {
+					ser = append(ser, s)
+				}
+			}
+			ops = append(ops, op{Kind: "delete", Series: ser, Lo: lo, Hi: hi})
+		case k < 19:
+			ops = append(ops, op{Kind: "snapshot"})
+		default:
+			ops = append(ops, op{Kind: "compact"})
+		}
+	}
+	return ops
+}
+
 func genCase(r *hx.Rand, i int) caseDesc {
 	d := caseDesc{Ops: genOps(r), CutMember: -1}
-	switch m := i % 12; {
+	switch i % 16 {
+	case 12, 13, 14:
+		d.Mode = "incr"
+		d.Ops = append(d.Ops, op{Kind: "snapshot"})
+		for k := 1 + r.Intn(3); k > 0; k-- {
+			d.Rounds = append(d.Rounds, genRoundOps(r))
+		}
+		return d
+	case 15:
+		d.Mode = "srcfault"
+		d.Ops = append(d.Ops, op{Kind: "write", Pts: genPts(r, 2, 20)}, op{Kind: "snapshot"}, op{Kind: "write", Pts: genPts(r, 2, 20)})
+		d.FaultMember = r.Intn(6)
+		d.FaultKind = []string{"lstat", "open"}[r.Intn(2)]
+		d.ViaRPC = r.Bool()
+		return d
+	}
+	switch m := i % 16; {
 	case m < 4:
 		d.Mode = "full"
 		if r.Chance(30) {
@@ -1276,6 +1662,24 @@ func designed() []caseDesc {
 	for _, ex := range []int{1, 2, 3} {
 		ds = append(ds, caseDesc{Mode: "full", Ops: tomb, Extra: ex, CutMember: -1})
 	}
+	// the source loses a snapshot file while streaming: before every member, both ways, direct and through the RPC
+	three := append(append([]op{}, two...), w(pt{1, 1, 7, 3}))
+	for k := 0; k < 4; k++ {
+		for _, kind := range []string{"lstat", "open"} {
+			for _, rpc := range []bool{false, true} {
+				ds = append(ds, caseDesc{Mode: "srcfault", Ops: three, FaultMember: k, FaultKind: kind, ViaRPC: rpc, CutMember: -1})
+			}
+		}
+	}
+	// incremental restores over an earlier copy
+	ds = append(ds,
+		// a delete that hits a file the full backup already shipped: the increment holds the tombstone file alone
+		caseDesc{Mode: "incr", CutMember: -1, Ops: base, Rounds: [][]op{{del(2, 2, 0)}}},
+		caseDesc{Mode: "incr", CutMember: -1, Ops: base, Rounds: [][]op{{del(2, 2, 0)}, {w(pt{0, 0, 2, 9}), del(1, 1, 1)}}},
+		caseDesc{Mode: "incr", CutMember: -1, Ops: base, Rounds: [][]op{{w(pt{0, 0, 3, 1}), snap, del(1, 3, 0)}, {del(1, 1, 1)}, {w(pt{2, 2, 4, 4})}}},
+		caseDesc{Mode: "incr", CutMember: -1, Ops: tomb, Rounds: [][]op{{del(1, 1, 0)}}}, // the tombstone file of an old file grows
+		caseDesc{Mode: "incr", CutMember: -1, Ops: base, Rounds: [][]op{{}}},          // nothing changed
+	)
 	return ds
 }
 
